@@ -410,13 +410,11 @@ class TokenizerState:
         return (self.end_progs[-1].mode is not None) and self.end_progs[-1].mode.parenlevel == self.parenlev
 
     def in_continued_string(self) -> bool:
-        return (
-            bool(self.end_progs)
-            and (
-                (self.line[-2:] == "\\\n")  # single quote should have line continuation at the end
-                or (self.line[-3:] == "\\\r\n")
-            )
-        )
+        """The line ends in a backslash that is not itself escaped (a single-quoted string goes on on the next line)."""
+        if not self.end_progs or not self.line.endswith("\n"):
+            return False
+        body = self.line[:-2] if self.line.endswith("\r\n") else self.line[:-1]
+        return (len(body) - len(body.rstrip("\\"))) % 2 == 1
 
 
 @dataclasses.dataclass(slots=True)
